@@ -45,6 +45,10 @@ func boundOps(fn *ssa.Function, ownerPrefix string) map[string][]string {
 
 func C06(c *Ctx) {
 	c.Note("exactness of the yielded key set; bound/prefix/seek semantics on all inputs; value equality with point reads; reverse iteration details; the ART engine's order (C07)")
+	tombstonePredicatesGroup(c, "K12.tombstone-predicates-agree")
+	iteratorBuffersGroup(c, "K2.iterator-buffers-not-aliased")
+	concatPinGroup(c, "K13.concat-iterator-pins-tables")
+	reverseDedupGroup(c, "K9.reverse-version-dedup")
 	const r1 = "K9.internal-key-comparator"
 	c.Rule(r1, "internal keys (results of kv.InternalKey/KeyWithTs, Entry.Key inside lsm/utils and inside the pending-writes iterator) are ordered only by utils.CompareKeys / CompareUserKeys; bytes.Compare is applied only to user keys (operands produced by kv.ParseKey / SplitInternalKey / DecodeKeyCF or iterator bounds)")
 	// (1) the pending-writes iterator
